@@ -5,6 +5,8 @@
 (*         0..MaxStride and every storage length 0..MaxLen: the transcribed      *)
 (*         acceptance tests in EXACT arithmetic imply Safe (and Injective for     *)
 (*         the DisallowOverlap constructor); int and Word transcriptions agree.   *)
+(*         Growing any axis by 1 or 2 is accepted by the transcription of         *)
+(*         expanded_layout only if the grown layout is injective and fits.         *)
 (*         Emits each layout with the storage lengths around its true extent.     *)
 (*  kbit   the same tests on a machine whose usize has K bits (all sizes,         *)
 (*         strides, lengths < 2^K): with CHECKED arithmetic (the current code)     *)
@@ -49,6 +51,16 @@ ExactOk ==
   \* Safe really is "every valid index lands inside the storage"
   /\ \A n \in {MinDataLen(sh, st), MinDataLen(sh, st) - 1} :
        n >= 0 => (Safe(sh, st, n) <=> \A o \in OffsetSet(sh, st, 0) : o < n)
+\* growth of an owned tensor in place (expanded_layout): whenever the transcribed test accepts the
+\* layout grown along ANY axis by 1 or 2 (same strides), that layout is injective and fits the capacity
+GrowOk ==
+  LET sh == lay.shape  st == lay.strides IN
+  \A d \in 1..Len(sh) : \A extra \in 1..2 :
+    LET g == SetAt(sh, d, sh[d] + extra) IN
+    /\ ~MayOverlapImpl(g, st) => InjectiveFast(g, st)
+    /\ \A cap \in {MinDataLen(g, st) - 1, MinDataLen(g, st)} :
+         (cap >= 0 /\ AcceptGrowW(WSeq(sh), WSeq(st), d - 1, FromNat(sh[d] + extra), FromNat(cap), "checked"))
+           => (InjectiveFast(g, st) /\ MinDataLen(g, st) <= cap)
 AgreeOk ==
   LET sh == lay.shape  st == lay.strides  shW == WSeq(sh)  stW == WSeq(st) IN
   /\ NatSeq(ContigStridesW(shW, TRUE)) = ContigStridesM(sh, 0)
@@ -173,7 +185,7 @@ SplitDisjoint ==
 InvChain == mode = "chain" => (InBounds /\ WindowOk /\ MutInjective /\ SplitDisjoint)
 
 \* -------------------------------------------------------- the combined model
-InvExact == mode = "exact" => (ExactOk /\ AgreeOk)
+InvExact == mode = "exact" => (ExactOk /\ AgreeOk /\ GrowOk)
 InvKbit == mode = "kbit" => KbitCheckedOk
 Emit == CASE mode = "exact" -> EmitExact
           [] mode = "kbit" -> EmitKbit
